@@ -1,7 +1,8 @@
 CONSTANTS
   KeySet = {"p256", "rsa2048"}
   StorageSet = {"direct", "lru1"}
+  Big = FALSE
 INIT Init
 NEXT Next
-INVARIANTS LawAdmissible LawDetermined LawFinalIssuer LawCrossKept Export
+INVARIANTS LawAdmissible LawDetermined LawFinalIssuer LawCrossKept LawFieldsVerbatim Export
 CHECK_DEADLOCK FALSE
